@@ -26,7 +26,15 @@ class CFG(object):
         self.blocks = {}
         for b in raw["b"]:
             blk = Block(b["id"])
-            blk.elems = [f.node(i) for i in b["e"] if f.node(i) is not None]
+            blk.elems = []
+            for i in b["e"]:
+                e = f.node(i)
+                if e is None:
+                    continue
+                if e["k"] == "DeclStmt":       # expose the declared variables as the elements
+                    blk.elems.extend(v for v in e.get("c", []) if v is not None)
+                else:
+                    blk.elems.append(e)
             if "t" in b:
                 blk.term = f.node(b["t"])
             if "tc" in b:
